@@ -51,9 +51,14 @@ func init() {
 
 // H_dbg: scratch harness for engine debugging.
 func H_dbg(p []int) {
-	s := vBytes(2)
-	out := redact.Sprintf("%5\xba", string(s), 7, redact.Safe(string(s)))
-	vObserve("out", []byte(out))
+	s := string(vBytes(1))
+	s1 := redact.Sprintf("pfx %v sfx", sfDoublePanic{s})
+	got := append([]byte(nil), s1...)
+	vObserve("first", got)
+	s2 := redact.Sprintf("zzzzzzzzzzzzzzzz %d", 1)
+	vObserve("second", []byte(s2))
+	vObserve("first-again", []byte(s1))
+	vAssert(bytesEq([]byte(s1), got), "C11/dbg-stable")
 }
 
 func init() { Harnesses["H_dbg"] = H_dbg }
